@@ -1,5 +1,6 @@
 import Tibc.Props.C16
 import Tibc.Expect.Packet
+import Tibc.Expect.Keys
 #print axioms Tibc.C16.packet_reimport_partial
 #print axioms Tibc.C16.packet_reimport_exact_iff
 #print axioms Tibc.C16.core_reimport
@@ -11,3 +12,5 @@ import Tibc.Expect.Packet
 #print axioms Tibc.C16.cutSlash_append
 #print axioms Tibc.C16.parse_consKey
 #print axioms Tibc.C16.processedKey_not_cons
+#print axioms Tibc.C16.export_reads_seq_keys
+#print axioms Tibc.C16.export_reads_pair_keys
